@@ -230,8 +230,24 @@ def rule_perfectconst(ctx):
 
 
 def _equates_sides(c):
-    """Every disjunct of the guard is a chain of equalities containing a reference count and an estimate count
-    (the special case applies only when *both* partitions are trivial in the same way)."""
+    """The guard implies that the reference class count equals the estimate class count (the special case applies only
+    when *both* partitions are trivial in the same way).  Decided semantically on the finite model of the comparisons
+    in the guard, so `r == e == 1 or r == e == 0` and `r == e and (e == 1 or e == 0)` are the same guard."""
+    from .. import finmodel
+
+    m = finmodel.Model([c])
+    rs = [v for v in m.vars if "reference_indices" in tm.params_of(v) and "estimated_indices" not in tm.params_of(v)]
+    es = [v for v in m.vars if "estimated_indices" in tm.params_of(v) and "reference_indices" not in tm.params_of(v)]
+    if rs and es:
+        for r in rs:
+            for e in es:
+                if finmodel.entails([(c, True)], tm.cmp("==", r, e)) is True:
+                    return True
+        return False
+    return _equates_sides_syntactic(c)
+
+
+def _equates_sides_syntactic(c):
     disj = c.a[1:] if (c.op == "bool" and c.a[0] == "or") else [c]
     for d in disj:
         eqs = d.a[1:] if (d.op == "bool" and d.a[0] == "and") else [d]
